@@ -33,6 +33,7 @@ type Solver struct {
 	inRaw     io.WriteCloser
 	out       *bufio.Reader
 	bv        bool
+	fp        bool // bit-precise float64 run scope: queries go to one-shot cvc5 / z3 (QF_BVFP), see termfp.go
 	emitted   map[int]bool
 	declUF    map[string]bool
 	perm      []string // permanent commands of the current run scope
@@ -126,8 +127,9 @@ func (s *Solver) Close() {
 }
 
 // Reset starts a new run scope (all declarations and assertions dropped).
-func (s *Solver) Reset(bv bool) {
+func (s *Solver) Reset(bv bool, fp ...bool) {
 	s.bv = bv
+	s.fp = len(fp) > 0 && fp[0]
 	fmt.Fprintf(s.in, "(reset)\n")
 	s.emitted = map[int]bool{}
 	s.declUF = map[string]bool{}
@@ -137,6 +139,9 @@ func (s *Solver) Reset(bv bool) {
 
 func (s *Solver) sendPerm(line string) {
 	s.perm = append(s.perm, line)
+	if s.fp {
+		return // the persistent process is not used in this mode
+	}
 	s.in.WriteString(line)
 	s.in.WriteByte('\n')
 }
@@ -149,8 +154,13 @@ func (s *Solver) emit(t *Term) {
 	switch t.op {
 	case "var":
 		s.sendPerm(fmt.Sprintf("(declare-const %s %s)", smtName(t), sortSMT(t.sort, s.bv)))
+		if t.sort == SFloat {
+			// nondeterministic float inputs are finite numbers (NaN-able inputs carry their own flag)
+			s.sendPerm(fmt.Sprintf("(assert (not (fp.isNaN %s)))", smtName(t)))
+			s.sendPerm(fmt.Sprintf("(assert (not (fp.isInfinite %s)))", smtName(t)))
+		}
 		return
-	case "iconst", "rconst", "bconst":
+	case "iconst", "rconst", "bconst", "fconst":
 		return
 	case "pinf", "ninf":
 		s.sendPerm("(error-infinity-reached-solver)")
@@ -164,6 +174,11 @@ func (s *Solver) emit(t *Term) {
 		ar := strings.Repeat("Real ", len(t.args))
 		s.sendPerm(fmt.Sprintf("(declare-fun uf_%s (%s) Real)", t.name, ar))
 	}
+	if strings.HasPrefix(t.op, "fuf:") && !s.declUF[t.op] {
+		s.declUF[t.op] = true
+		ar := strings.Repeat(SFloat.String()+" ", len(t.args))
+		s.sendPerm(fmt.Sprintf("(declare-fun fuf_%s (%s) %s)", t.op[4:], ar, SFloat.String()))
+	}
 	s.sendPerm(fmt.Sprintf("(define-fun %s () %s %s)", smtName(t), sortSMT(t.sort, s.bv), s.body(t)))
 }
 
@@ -175,10 +190,11 @@ func (s *Solver) Assert(t *Term) {
 }
 
 type ModelVal struct {
-	S     string   // raw text
-	Rat   *big.Rat // for Int/Real when parseable
-	Bool  bool
-	Exact bool
+	S       string   // raw text
+	Rat     *big.Rat // for Int/Real when parseable
+	Bool    bool
+	Exact   bool
+	IsFloat bool // decoded from a FloatingPoint model value
 }
 
 const nlsatTactic = "(then simplify purify-arith qfnra-nlsat)"
@@ -195,6 +211,22 @@ func (s *Solver) Check(extras []*Term, want []*Term, nonlinear bool) (res string
 	}
 	for _, w := range want {
 		s.emit(w)
+	}
+	if s.fp {
+		res, model = s.oneShotFP(extras, want)
+		if s.dumpDir != "" {
+			s.dump(extras, res)
+		}
+		switch res {
+		case "sat":
+			s.Stats.Sat++
+		case "unsat":
+			s.Stats.Unsat++
+		default:
+			res = "unknown"
+			s.Stats.Unknown++
+		}
+		return
 	}
 	s.in.WriteString("(push)\n")
 	for _, e := range extras {
@@ -400,6 +432,15 @@ func evalSexp(x interface{}) ModelVal {
 			mv.Exact = true
 			return mv
 		}
+		if strings.HasPrefix(v, "#b") {
+			var u uint64
+			for _, c := range v[2:] {
+				u = u<<1 | uint64(c-'0')
+			}
+			mv.Rat = new(big.Rat).SetInt64(int64(u))
+			mv.Exact = true
+			return mv
+		}
 		approx := strings.HasSuffix(v, "?")
 		v = strings.TrimSuffix(v, "?")
 		if r, ok := new(big.Rat).SetString(v); ok {
@@ -411,6 +452,10 @@ func evalSexp(x interface{}) ModelVal {
 			return mv
 		}
 		head, _ := v[0].(string)
+		if f, ok := fpModelValue(v); ok {
+			mv.Rat, mv.Exact, mv.IsFloat = ratOfFloat(f), true, true
+			return mv
+		}
 		switch head {
 		case "-":
 			if len(v) == 2 {
@@ -615,4 +660,73 @@ func CrossCheck(bin string, args []string, script string, secs int) string {
 		cmd.Process.Kill()
 		return "unknown"
 	}
+}
+
+// oneShotFP decides a bit-precise float64 query (bit-vectors + FloatingPoint) in fresh processes:
+// cvc5 first (its word-level FP solver is the fastest here on the probed kernels), then both z3 builds.
+func (s *Solver) oneShotFP(extras []*Term, want []*Term) (string, map[string]ModelVal) {
+	f, err := os.CreateTemp("", "qsym-fp-*.smt2")
+	if err != nil {
+		return "", nil
+	}
+	defer os.Remove(f.Name())
+	f.WriteString("(set-logic ALL)\n")
+	f.WriteString(s.script(extras, want))
+	f.Close()
+	secs := s.timeout/1000 + 1
+	if secs < 60 {
+		secs = 60
+	}
+	type sv struct {
+		bin  string
+		args []string
+	}
+	for _, v := range []sv{
+		{"cvc5", []string{"--produce-models", fmt.Sprintf("--tlimit=%d", secs*1000)}},
+		{"z3", []string{fmt.Sprintf("-T:%d", secs), "-memory:3000"}},
+		{"z3-new", []string{fmt.Sprintf("-T:%d", secs), "-memory:3000"}},
+	} {
+		cmd := exec.Command(v.bin, append(v.args, f.Name())...)
+		cmd.SysProcAttr = &syscall.SysProcAttr{Pdeathsig: syscall.SIGKILL}
+		done := make(chan []byte, 1)
+		go func() {
+			out, _ := cmd.CombinedOutput()
+			done <- out
+		}()
+		var out []byte
+		select {
+		case out = <-done:
+		case <-time.After(time.Duration(secs+5) * time.Second):
+			if cmd.Process != nil {
+				cmd.Process.Kill()
+			}
+			continue
+		}
+		lines := strings.Split(string(out), "\n")
+		verdict, rest, errBefore := "", "", false
+		for i, l := range lines {
+			l = strings.TrimSpace(l)
+			if l == "sat" || l == "unsat" || l == "unknown" {
+				verdict, rest = l, strings.Join(lines[i+1:], "\n")
+				break
+			}
+			if strings.Contains(l, "(error") {
+				errBefore = true
+			}
+		}
+		if errBefore {
+			s.lastErr = string(out)
+			s.Stats.Errors++
+			continue
+		}
+		if verdict == "unsat" {
+			return "unsat", nil
+		}
+		if verdict == "sat" {
+			model := map[string]ModelVal{}
+			parseGetValue(rest, want, model)
+			return "sat", model
+		}
+	}
+	return "", nil
 }
